@@ -528,6 +528,18 @@ impl JoinPlanner {
             return ir;
         }
 
+        // The rebuild below identifies columns by name. An input with a repeated
+        // variable (e(A, A, B)) has two columns of the same name, so keys and
+        // projections cannot be remapped reliably: keep the builder's plan.
+        let has_repeated_column = graph.nodes.iter().any(|n| {
+            let schema = n.ir_node.output_schema();
+            let unique: HashSet<&String> = schema.iter().collect();
+            unique.len() != schema.len()
+        });
+        if has_repeated_column {
+            return ir;
+        }
+
         // Extract head variables from the top-level operation above the joins.
         // These are the variables that survive to the final result, allowing
         // compute_tree_width to account for early projection.
